@@ -748,6 +748,13 @@ class HookEval:
                     if not (ks & lk):
                         return not pos
                     return self._fork_bool()
+            whole = self._whole_value_ops(node, w, extra)
+            if whole:
+                # a comparison that looks at a mapping as a whole (its key set): undetermined for the analysis, and it
+                # observes undeclared keys (reported under C15)
+                self.iterated_mapping.extend(whole)
+                self.imprecise = True
+                return BOTH
             raise AnalysisError(f"{self.rel}:{node.lineno}: unsupported comparison in {self.name}: "
                                 f"{ast.unparse(node)}")
         if isinstance(node, ast.Call) and dotted(node.func) in ("any", "all") and len(node.args) == 1 \
